@@ -58,7 +58,7 @@ let cls_str = function FCalcDeep -> "calc-deep"
 let () =
   iter_lines (fun l ->
     match split_tab l with
-    | ["front"; f] ->
+    | "front" :: f :: _ ->
         let s = str_of_field f in
         let segs = line_to_cmds s in
         let b = Buffer.create 64 in
@@ -72,6 +72,11 @@ let () =
         (match plan_and_lookup (a = "1") (tokens_of_fields fs) with
          | SErr e -> print_endline ("plan=" ^ perr e ^ " fw=-")
          | SPlan (cl, f) -> print_endline ("plan=" ^ plan_str cl ^ " fw=" ^ fw_str f))
+    | "alias" :: f :: fs ->
+        let rec pairs = function k :: v :: r -> (str_of_field k, str_of_field v) :: pairs r | _ -> [] in
+        (match expand_alias_sites parse_line (pairs fs) (parse_line (str_of_field f)) with
+         | Ok toks -> print_endline (tokens_str toks)
+         | Panic _ -> print_endline "PANIC")
     | "redir" :: fs ->
         (match tokens_to_redirections (tokens_of_fields fs) with
          | Inl (tk, rd) -> print_endline ("R(tokens=" ^ tokens_str tk ^ ",redirs=" ^ redirs_str rd ^ ")")
